@@ -30,6 +30,9 @@ class World:
         self.app._ezsp = self.e
         self.app._ctrl_event.set()
         self.app._send_sequence = seq0
+        import zigpy.types as _zt
+
+        self.app.state.node_info.nwk = _zt.NWK(0x0000)   # a coordinator's own address
         self.waiting = None  # (req id, future) of the command being awaited
         self.tasks = {}
         self.req_of_dst = {}
@@ -447,6 +450,12 @@ def scripts(ctx):
                     elif conf == "dup":
                         sc += ["F=1=own=1", "F=1=own=1"]
                 out.append(sc)
+    # a unicast to the coordinator's own network address (ZDO requests to itself) is a unicast like any other
+    for conf in ("own1", "own0", "none", "tag", "dst", "dup"):
+        sc = ["S=1=0=u=s=0", ("SETUP",), "D=ok"]
+        sc += {"own1": ["F=1=own=1"], "own0": ["F=1=own=0"], "none": ["T"], "tag": ["F=1=tag=1", "T"], "dst": ["F=1=dst=1", "T"],
+               "dup": ["F=1=own=1", "F=1=own=1"]}[conf]
+        out.append(sc)
     # two (three) unicasts in flight to the SAME destination, carrying the same APS counter (a reply that echoes the peer's
     # counter while a request with that counter is still waiting): each is completed by its own confirmation only
     for n in (2, 3):
